@@ -352,6 +352,7 @@ func c13(repo string, out *fg.Out) error {
 	type instr struct{ Kind, Mode int }
 	var prog []instr
 	seenManifest, skipManifestCheck := false, false
+	dataSkipNoParquet := false
 	lastStep := token.NoPos
 	for _, top := range rb.Body.List {
 		if !seenManifest { // everything up to and including the GetBackup error check
@@ -396,6 +397,25 @@ func c13(repo string, out *fg.Out) error {
 		}
 		if !strings.HasPrefix(cond, "opts.Restore") {
 			continue
+		}
+		// known counter-conditioned shape: `if opts.RestoreData && manifest.TotalFiles == 0 { no step }
+		// else if opts.RestoreData { step }` = the data step is skipped for a backup that inventories no
+		// parquet file. Recorded as a fact (the model follows it; the theorems require it to be false).
+		if el, ok := ifs.Else.(*ast.IfStmt); ok && ifs.Init == nil && cond == wantCond[0]+"&&manifest.TotalFiles==0" &&
+			el.Init == nil && el.Else == nil && strings.ReplaceAll(rbf.Text(el.Cond), " ", "") == wantCond[0] {
+			hasStep := false
+			ast.Inspect(ifs.Body, func(n ast.Node) bool {
+				if e, ok := n.(ast.Expr); ok && stepCall(e) >= 0 {
+					hasStep = true
+				}
+				return true
+			})
+			if hasStep {
+				return fmt.Errorf("RestoreBackup: step inside the TotalFiles==0 branch (line %d)", rbf.Line(ifs))
+			}
+			dataSkipNoParquet = true
+			ifs = el
+			cond = wantCond[0]
 		}
 		if ifs.Init != nil || ifs.Else != nil {
 			return fmt.Errorf("RestoreBackup: unexpected init/else on step wrapper (line %d)", rbf.Line(ifs))
@@ -452,6 +472,20 @@ func c13(repo string, out *fg.Out) error {
 	}
 	if len(prog) == 0 || lastStep == token.NoPos {
 		return fmt.Errorf("RestoreBackup: no restore steps found")
+	}
+	// no OTHER condition of RestoreBackup may look at the manifest's counters
+	nCounterConds := 0
+	ast.Inspect(rb.Body, func(n ast.Node) bool {
+		if x, ok := n.(*ast.IfStmt); ok {
+			t := rbf.Text(x.Cond)
+			if strings.Contains(t, "TotalFiles") || strings.Contains(t, "TotalSizeBytes") || strings.Contains(t, "SkippedFiles") || strings.Contains(t, ".Databases") {
+				nCounterConds++
+			}
+		}
+		return true
+	})
+	if want := map[bool]int{false: 0, true: 1}[dataSkipNoParquet]; nCounterConds != want {
+		return fmt.Errorf("RestoreBackup: %d condition(s) on manifest counters (TotalFiles/TotalSizeBytes/SkippedFiles/Databases), expected %d", nCounterConds, want)
 	}
 	completedUncond := false
 	for _, s := range rb.Body.List { // direct children only = unconditional
@@ -753,6 +787,8 @@ func c13(repo string, out *fg.Out) error {
 	}
 	fmt.Fprintf(w, "/-- RestoreBackup step program: (kind 0=data 1=sqlite 2=config 9=check-shared-err, mode 0=fail-now 1=assign 2=accumulate 3=ignore) -/\n")
 	fmt.Fprintf(w, "def restoreProgram : List (Nat × Nat) := [%s]\n", strings.Join(ps, ", "))
+	fmt.Fprintf(w, "/-- RestoreBackup skips the data step when manifest.TotalFiles == 0 (no parquet inventoried) -/\n")
+	fmt.Fprintf(w, "def dataSkippedWhenNoParquet : Bool := %v\n", dataSkipNoParquet)
 	fmt.Fprintf(w, "def parquetSuffix : List Nat := %s\n", leanCodes(parquetSuffix))
 	fmt.Fprintf(w, "def metadataSeg : List Nat := %s\n", leanCodes(metaSeg))
 	fmt.Fprintf(w, "def partSuffix : List Nat := %s\n", leanCodes(partSuffix))
@@ -769,6 +805,7 @@ func c13(repo string, out *fg.Out) error {
 	out.JSON["write_err_is_source_read"] = writeIsSrc
 	out.JSON["io_attempts"] = map[string]any{"backup_read": bReadPh.attempts, "backup_read_retry_resets": bReadPh.resets, "backup_write": bWritePh.attempts,
 		"restore_read": rReadPh.attempts, "restore_read_retry_resets": rReadPh.resets, "restore_write": rWritePh.attempts}
+	out.JSON["data_skipped_when_no_parquet"] = dataSkipNoParquet
 	out.JSON["restore_program"] = prog
 	out.JSON["parquet_suffix"] = parquetSuffix
 	out.JSON["metadata_seg"] = metaSeg
